@@ -158,9 +158,17 @@ def run(pid: str, tier: str) -> int:
              'Connecting "Équipe Zürich" as North using protocol version 18'.encode('utf-8'),
              'Teams : N/S : "東京" E/W : "Łódź"'.encode('utf-8'),
              'South "команда" seated'.encode('utf-8')]
+    # the protocol puts no bound on the length of a line (team names are free
+    # text): lines around the sizes a reader may use for its buffers
+    long_lines = [b'Teams : N/S : "' + b'n' * 120 + b'" E/W : "' + b'e' * 130 + b'"',
+                  b'Connecting "' + b't' * 230 + b'" as West using protocol version 18',
+                  b'a' * 254, b'b' * 255, b'c' * 256, b'd' * 257, b'e' * 1023, b'f' * 1024,
+                  b'g' * 4094, b'h' * 4095, b'i' * 4096, b'j' * 4097, b'k' * 8192, b'l' * 9000]
     extra = []
     for _ in range(300 if quick else 20000):
         ms = [r.choice(lines) for _ in range(r.randrange(0, 5))]
+        if _ % 8 == 3:
+            ms.insert(r.randrange(len(ms) + 1), long_lines[(_ // 8) % len(long_lines)])
         stream = b''.join(m + b'\r\n' for m in ms)
         closed = r.random() < 0.7
         t = r.randrange(0, len(stream) + 1) if closed else len(stream)
